@@ -342,8 +342,9 @@ Definition thread_step (st : node) (th : thread) : node * thread :=
                if d_hang (decl_of st m)
                then (st, {| t_id := t_id th; t_prog := t_prog th; t_hung := true; t_done := false |})
                else (emit e st, {| t_id := t_id th; t_prog := rest; t_hung := false; t_done := false |})
-           | EStarted _ => (emit e st, {| t_id := t_id th; t_prog := rest; t_hung := false; t_done := true |})
-           | _ => (emit e st, {| t_id := t_id th; t_prog := rest; t_hung := false; t_done := false |})
+           | EStarted _ => (emit (EStarted (t_id th)) st, {| t_id := t_id th; t_prog := rest; t_hung := false; t_done := true |})
+           | EWrite _ _ | ERead _ _ => (emit e st, {| t_id := t_id th; t_prog := rest; t_hung := false; t_done := false |})
+           | _ => (st, {| t_id := t_id th; t_prog := rest; t_hung := false; t_done := false |})   (* not a poll thread event *)
            end
        end.
 
